@@ -237,10 +237,22 @@ def run(ck: Check, prog: Program) -> None:
     if not ok_b:
         p2.append(('ELEMENTWISE', 'batch is not answered element by element, in order', onr.node.lineno,
                    'a batch must be answered by appending _match_request(endpoint, version, method, params, id) of every element, in order'))
-    single = [cc for n in cfg2.stmt_nodes() for cc in calls_in(n) if dotted(cc.func) == 'self._match_request' and
+    from ..flow import Flow as _Flow
+    fl2 = _Flow(cfg2)
+    single = [(n, cc) for n in cfg2.stmt_nodes() for cc in calls_in(n) if dotted(cc.func) == 'self._match_request' and
               not any(n.id in cfg2.reachable(h, edge_ok=lambda e: e.label != 'exhausted') and h.id in cfg2.reachable(n) for h in heads)]
-    if len(single) != 1 or [norm(a) for a in single[0].args][2:] != ['request.method', 'request.params', 'request.id']:
-        p2.append(('ELEMENTWISE', 'single request is not matched with its own method, params and id', onr.node.lineno, ''))
+    ok_s = False
+    if len(single) == 1:
+        sn, sc_ = single[0]
+        a3 = [dotted(a) for a in sc_.args][2:]
+        if len(a3) == 3 and all(a3) and [x.rsplit('.', 1)[-1] for x in a3] == ['method', 'params', 'id'] and len({x.rsplit('.', 1)[0] for x in a3}) == 1:
+            rv = a3[0].rsplit('.', 1)[0]
+            srcs = fl2.alts(sn, ast.Name(id=rv, ctx=ast.Load()))
+            ok_s = bool(srcs) and all(isinstance(al.expr, ast.Call) and norm(al.expr.func).endswith('Request.from_json')
+                                      and not norm(al.expr.func).endswith('BatchRequest.from_json') for al in srcs)
+    if not ok_s:
+        p2.append(('ELEMENTWISE', 'single request is not matched with its own method, params and id', onr.node.lineno,
+                   'a single request must be answered by _match_request(endpoint, version, method, params, id) of the request parsed from the text'))
     for rule in ('FALLBACKS', 'ELEMENTWISE'):
         bad = [p for p in p2 if p[0] == rule]
         ck.ob(rule, f'_on_request: {rule}', not bad)
